@@ -19,6 +19,7 @@
 import json
 import random
 import time
+from concurrent.futures import ThreadPoolExecutor
 
 from .. import c16_h3 as C16
 from .. import c20_pair as P
@@ -45,7 +46,8 @@ HOSTILE = [
     ("1rtt", H.f_new_token(b"\x00\xff" * 20), "new-token"),
     ("1rtt", H.f_new_token(b""), "new-token-empty"),
     ("1rtt", H.f_new_cid(5, 0, bytes(range(8)), bytes(16)), "new-cid-gap"),
-    ("1rtt", H.f_new_cid(9, 9, b"\xff" * 20, b"\xfe" * 16), "new-cid-retire-all"),
+    ("1rtt", H.f_new_cid(9, 9, b"\xff" * 8, b"\xfe" * 16), "new-cid-retire-all"),
+    ("1rtt", H.f_new_cid(9, 9, b"\xff" * 20, b"\xfe" * 16), "new-cid-retire-all-20-bytes"),   # the observer only follows 8-byte CIDs
     ("1rtt", H.f_new_cid(3, 4, b"ab" * 4), "new-cid-retire-prior-to-beyond-seq"),
     ("1rtt", H.f_new_cid(2, 0, b""), "new-cid-empty"),
     ("1rtt", H.f_retire_cid(0), "retire-cid-0"),
@@ -230,43 +232,51 @@ def judge(check, jobs, results, name):
             owner.append(ji)
     fails = trace.validate(check, "TraceLogPair", lines, name=name,
                            constants='CONSTANTS MaxSteps = 0\nMaxPn = 0\nFault = "none"',
-                           shards=max(1, min(16, len(lines) // 600)))
+                           shards=max(1, min(8 if check.quick else 16, len(lines) // 3000)))
     check.cov["traces_validated_against_impl"] += 4 * len(jobs)
-    seen = set()
-    rechecked = {}
-    for i, clause in fails:
+    # per (scenario, mode): everything after the first disagreement is its consequence; report the first
+    # statement-level failure, and a model-level one only when it comes before it
+    first = {}
+    for i, clause in sorted(fails):
         ji = owner[i]
-        cls = clause.split(":")[0] if not clause.startswith("model:") else ":".join(clause.split(":")[:2])
-        mode = clause.split(":")[-1]
-        if (ji, cls, mode) in seen:
-            continue
-        seen.add((ji, cls, mode))
+        key = (ji, mode_of(clause), clause.startswith("model:"))
+        if key not in first and ((ji, mode_of(clause), False) not in first or first[(ji, mode_of(clause), False)][0] > i):
+            first[key] = (i, clause)
+    rechecked = {}
+    for (ji, mode, is_model), (i, clause) in sorted(first.items()):
         job, ln, meta = jobs[ji], lines[i], results[ji]["meta"]
         if ji not in rechecked:
             # the baseline must be deterministic, otherwise a difference says nothing about logging
             again = job_fn(job)
-            rechecked[ji] = [x["r"][0] for x in again["lines"] if x["ev"] == "step"] == \
-                            [x["r"][0] for x in results[ji]["lines"] if x["ev"] == "step"] and \
-                            again["lines"][-1]["f"][0] == results[ji]["lines"][-1]["f"][0]
+            base = lambda res: [(x["r"][0]["k"], x["r"][0]["raised"], P.decode(x, x["r"][0]["obs"])) for x in res["lines"] if x["ev"] == "step"] + \
+                [P.decode(res["lines"][-1], res["lines"][-1]["f"][0])]       # noqa: E731
+            rechecked[ji] = base(again) == base(results[ji])
         if not rechecked[ji]:
             raise MachineryError("two runs of the same scenario with logging off differ: the harness is not deterministic (%s)"
                                  % job.get("what"))
         sig = signature(clause, ln, meta)
-        detail = {"clause": clause, "job": job, "line_index": i - owner.index(ji),
+        detail = {"clause": clause, "job": job, "line_index": i - owner.index(ji), "what": job.get("what"),
                   "line": json.loads(json.dumps(ln))}
-        (check.drift if clause.startswith("model:") else check.violation)(sig, detail)
+        (check.drift if is_model else check.violation)(sig, detail)
+
+
+def mode_of(clause):
+    parts = clause.split(":")
+    return parts[-2] if parts[-1] in ("c", "s") else parts[-1]
 
 
 def signature(clause, ln, meta):
     parts = clause.split(":")
     if ln["ev"] == "step":
         m = P.MODE_NAMES.index(parts[-1])
-        off, on = ln["r"][0], ln["r"][m]
+        off, on = [dict(r, obs=P.decode(ln, r["obs"]), mdl=P.decode(ln, r["mdl"])) for r in (ln["r"][0], ln["r"][m])]
         call = ""
         for o in on["obs"][:1]:
             for tok in o.split(" "):
                 if tok.startswith("call=") or tok.startswith("cls="):
                     call = tok.split("=", 1)[1]
+        if call == "RAISED":
+            call = "h3.handle_event" if on["k"] == "h3" else "next_event"
         if parts[0] == "logging-raises":
             return "logpair:logging-raises:%s:%s:%s:%s" % (parts[-1], on["raised"], on["k"], call)
         if parts[0].startswith("different-"):
@@ -316,32 +326,42 @@ def run(check):
         check.sample({"replayed": d["job"].get("what"), "lines": len(res[0]["lines"])})
         check.cov["rule"] = "replay of one recorded scenario (four runs)"
         return
-    # (M)
-    t0 = time.time()
-    base = 'SPECIFICATION Spec\nCONSTANTS MaxSteps = %d\nMaxPn = 2\nFault = "%s"\n'
-    steps = 6 if check.quick else 8
-    r = check.run_tlc("LogPair", base % (steps, "none") + "INVARIANT TypeOk\nINVARIANT SameObservation\n"
-                      "INVARIANT LoggingTotal\nINVARIANT QlogAccounting\n", name="LogPair_M")
-    if r.violated:
-        check.model_violation(r, "LogPair")
-    refuted = {}
-    for fault, inv in FAULTS:
-        rf = check.run_tlc("LogPair", base % (5, fault) + "INVARIANT %s\n" % inv, name="LogPair_" + fault.replace("-", "_"), workers=4)
-        refuted[fault] = rf.violated
-        if rf.violated != inv:
-            raise MachineryError("the invariant %s does not refute the defective logger %r (got %r): the model is vacuous" % (inv, fault, rf.violated))
-    check.cov["defective_loggers_refuted"] = refuted
-    rr = check.run_tlc("LogPair", base % (steps, "none") + "INVARIANT Reach\n", name="LogPair_reach", workers=4)
-    if rr.violated != "Reach":
-        raise MachineryError("LogPair: no behaviour sends, processes and terminates")
+    # (M) runs in a thread (TLC subprocesses) next to the trace validation of (V)
+    def model():
+        base = 'SPECIFICATION Spec\nCONSTANTS MaxSteps = %d\nMaxPn = 2\nFault = "%s"\n'
+        steps = 6 if check.quick else 8
+        with ThreadPoolExecutor(max_workers=8) as ex:
+            f0 = ex.submit(check.run_tlc, "LogPair", base % (steps, "none") + "INVARIANT TypeOk\nINVARIANT SameObservation\n"
+                           "INVARIANT LoggingTotal\nINVARIANT QlogAccounting\n", name="LogPair_M", workers=4 if check.quick else 8)
+            futs = [(fault, inv, ex.submit(check.run_tlc, "LogPair", base % (5, fault) + "INVARIANT %s\n" % inv,
+                                           name="LogPair_" + fault.replace("-", "_"), workers=1, heap="1g")) for fault, inv in FAULTS]
+            fr = ex.submit(check.run_tlc, "LogPair", base % (5, "none") + "INVARIANT Reach\n", name="LogPair_reach", workers=1, heap="1g")
+            r = f0.result()
+            if r.violated:
+                check.model_violation(r, "LogPair")
+            refuted = {}
+            for fault, inv, f in futs:
+                rf = f.result()
+                refuted[fault] = rf.violated
+                if rf.violated != inv:
+                    raise MachineryError("the invariant %s does not refute the defective logger %r (got %r): the model is vacuous"
+                                         % (inv, fault, rf.violated))
+            if fr.result().violated != "Reach":
+                raise MachineryError("LogPair: no behaviour sends, processes and terminates")
+        check.cov["defective_loggers_refuted"] = refuted
     # (V)
     t1 = time.time()
     rnd = random.Random(check.seed)
     jobs = make_jobs(check, rnd)
-    results = runner.run_many(job_fn, jobs)
+    results = runner.run_many(job_fn, jobs)          # forks: before any thread exists
     t2 = time.time()
-    judge(check, jobs, results, "TraceLogPair_V")
-    check.cov["phase_wall_s"] = {"model": round(t1 - t0, 1), "paired_runs": round(t2 - t1, 1), "tlc_on_traces": round(time.time() - t2, 1)}
+    with ThreadPoolExecutor(max_workers=1) as bg:
+        fm = bg.submit(model)
+        judge(check, jobs, results, "TraceLogPair_V")
+        t3 = time.time()
+        fm.result()
+    check.cov["phase_wall_s"] = {"paired_runs": round(t2 - t1, 1), "tlc_on_traces": round(t3 - t2, 1),
+                                 "model_beyond_traces": round(time.time() - t3, 1)}
     prof = {}
     for job, res in zip(jobs, results):
         m = res["meta"]
